@@ -139,10 +139,10 @@ impl TplLitTypeItem {
             TplLitTypeItem::OneOf(vs) => {
                 let mut vs = vs.iter().collect::<Vec<_>>();
                 vs.sort();
+                // (the empty string is an alternative like any other: `a${"" | "b"}` contains "a")
                 let vs = vs
                     .into_iter()
                     .map(|it| it.regex_expr())
-                    .filter(|it| !it.is_empty())
                     .collect::<Vec<_>>();
                 let vs = vs.join("|");
                 format!("({})", vs)
@@ -206,6 +206,10 @@ impl TplLitType {
 
         for item in &self.0 {
             regex_exp.push_str(&item.regex_expr());
+        }
+        if regex_exp.is_empty() {
+            // `${""}`: an empty regular expression literal would read as a comment
+            return "(?:)".to_string();
         }
         regex_exp
     }
